@@ -238,6 +238,10 @@ func ctxVal(ctx context.Context) string {
 	}
 	v, _ := ctx.Value(ctxKey{}).(string)
 	q := gojson.FieldQueryFromContext(ctx)
+	if v == "" && q == nil {
+		// context.Background() and a context without our key look the same
+		return "ctx=<no value>"
+	}
 	qs := ""
 	if q != nil {
 		qs = ";q=" + queryText(q)
@@ -387,7 +391,7 @@ type mjqPlain MJQ
 
 func (m MJQ) MarshalJSON(ctx context.Context) ([]byte, error) {
 	verifsim.Yield(seamCBMarshal)
-	if gojson.FieldQueryFromContext(ctx) == nil {
+	if ctx == nil || gojson.FieldQueryFromContext(ctx) == nil {
 		return gojson.Marshal(mjqPlain(m))
 	}
 	return gojson.MarshalContext(ctx, mjqPlain(m))
